@@ -4,6 +4,7 @@ run_case(case): minify(src, opts) on the real code, then O3 (vf.oracle.matcher) 
 for this very input and output) decide the view of the property named in case['prop'].
 """
 import ast
+import os
 import base64
 import json
 import re
@@ -157,7 +158,7 @@ def run_case(case):
 
     out = None
     hook = False
-    if prop == 'C03':
+    if prop == 'C03' and case.get('foreign_out') is None:
         from vf.monitor import probes
         hook = probes.install_renamer_hook()
         probes.take_records()
@@ -166,10 +167,14 @@ def run_case(case):
         compile(src, 'p', 'exec', dont_inherit=True)
     except Exception:
         return {'status': 'skip', 'reason': 'input does not compile'}
-    try:
-        out = pm.minify(src, **common.opts_to_kwargs(opts, pm))
-    except Exception as e:
-        return {'status': 'skip', 'reason': 'minify raised %s (C08)' % type(e).__name__}
+    if case.get('foreign_out') is not None:
+        out = case['foreign_out']       # produced by the minifier running in another interpreter (case['interpreter'])
+        res['counters']['foreign_outputs_compared'] = 1
+    else:
+        try:
+            out = pm.minify(src, **common.opts_to_kwargs(opts, pm))
+        except Exception as e:
+            return {'status': 'skip', 'reason': 'minify raised %s (C08)' % type(e).__name__}
     changed = False
     # (i) the compiler, not merely the parser, accepts the output
     try:
@@ -250,7 +255,7 @@ def run_case(case):
                 res['counters']['renamer_hook_bindings_checked'] = res['counters'].get('renamer_hook_bindings_checked', 0) + rec['bindings']
                 for pr in rec['problems'][:3]:
                     viol(None, 'renamer hook invariant (auxiliary): ' + pr)
-        else:
+        elif case.get('foreign_out') is None:
             res['counters']['renamer_hook_not_attached'] = 1
         for p in r.problems:
             if p['kind'] in C03_KINDS:
@@ -353,11 +358,70 @@ def _raw_pairs(r):
             yield po.raw, qo.raw
 
 
+def foreign_layer(run, prop, cases, tier, versions=None, per_version=None):
+    """The same (program, options) cases with the minifier running in other interpreters (different ast node classes and code paths below 3.8, other
+    grammar gates above): stage 1 collects minify() outputs there, stage 2 decides them here with the same matcher views as the native cases."""
+    from vf import pool
+    if versions is None:
+        versions = ['3.6.15', '3.7.16', '3.8.18', '3.10.13', '3.13.0'] if tier == 'quick' else ['3.6.15', '3.7.16', '3.8.18', '3.9.18', '3.10.13', '3.11.7', '3.13.0']
+    interp = dict(common.interpreters())
+    stage2 = []
+    for vi, version in enumerate(versions):
+        py = interp.get(version)
+        if py is None or run.timed_out():
+            continue
+        sub = cases if per_version is None else [c for i, c in enumerate(cases) if (i + vi) % max(1, len(cases) // per_version) == 0]
+        if version.startswith('3.6'):
+            # dataclasses exist from 3.7 on; below that the minifier deliberately does not treat @dataclass as protecting (the repository's own
+            # test_remove_dataclass pins this), so 'never from dataclass fields' has no subject there
+            sub = [c for c in sub if 'dataclass' not in get_src(c)]
+        ops = [{'op': 'minify', 'src': get_src(c), 'opts': c['opts'], 'case_timeout': 40, 'idx': i} for i, c in enumerate(sub)]
+
+        def on1(o, r, version=version, sub=sub):
+            if r.get('status') == 'ok':
+                c = dict(sub[o['idx']])
+                c['foreign_out'] = r['out']
+                c['interpreter'] = version
+                c['prop'] = prop
+                c['want_sample'] = False
+                stage2.append(c)
+            elif r.get('status') == 'skip':
+                run.skipped['foreign: ' + r.get('reason', 'skip')] = run.skipped.get('foreign: ' + r.get('reason', 'skip'), 0) + 1
+            elif r.get('status') == 'error':
+                run.skipped['foreign: minify raised there (C08)'] = run.skipped.get('foreign: minify raised there (C08)', 0) + 1
+            else:
+                run.inconclusive['foreign: no output from %s' % version] = run.inconclusive.get('foreign: no output from %s' % version, 0) + 1
+        env = common.clean_env()
+        env['PYTHONPATH'] = common.REPO_SRC
+        pool.run_cases(ops, None, cmd=[py, '-W', 'ignore', os.path.join(common.VERIF, 'vf', 'compat_worker.py')], env=env, timeout=60, batch=20, on_result=on1,
+                       deadline=run.deadline, nworkers=6)
+
+    def on2(c, r):
+        slim = {'shape': c.get('shape'), 'opts': c['opts'], 'interpreter': c['interpreter'], 'layer': 'foreign'}
+        if r.get('status') == 'violation' or 'inconclusive' in r:
+            slim['src'] = get_src(c) if isinstance(get_src(c), str) else None
+            slim['src_b64'] = c.get('src_b64')
+            for v in r.get('violations') or []:
+                v['detail'] = '[minifier running in %s] %s' % (c['interpreter'], v.get('detail'))
+        if r.get('status') in ('held', 'violation'):
+            run.cell('foreign_interpreter', c['interpreter'])
+        if r.get('nontrivial'):
+            r['nontrivial'] = ['foreign|%s|%s' % (c['interpreter'], x) for x in r['nontrivial']]
+        run.add(slim, r)
+    pool.run_cases(stage2, 'vf.props.nameeng:run_case', timeout=60, batch=25, on_result=on2, deadline=run.deadline)
+
+
 def replay_case(path, prop):
     from vf import runner
     w = runner.load_replay(path)
     c = dict(w['case'])
     c['prop'] = prop
+    if c.get('layer') == 'foreign':
+        fr = common.compat_single(c['interpreter'], {'op': 'minify', 'src': get_src(c), 'opts': c['opts'], 'case_timeout': 60})
+        if fr.get('status') != 'ok':
+            print('no foreign output: %r' % (fr,))
+            return 0
+        c['foreign_out'] = fr['out']
     r = run_case(c)
     print(json.dumps(r, indent=1, default=repr)[:4000])
     if r.get('violations'):
